@@ -13,7 +13,7 @@ func genMapCase(r *rand.Rand, cfg Cfg, nops int, usize int) Case {
 	uni := Universe(r, cfg, usize)
 	ops := []string{"new 0"}
 	// a tree made by NewInMemory() (branch factor 16, no store): never persisted
-	inMem := cfg.BF == 16 && cfg.KK != "sk" && cfg.KK != "vk" && !cfg.Reg && r.Intn(3) == 0
+	inMem := cfg.BF == 16 && cfg.KK != "sk" && cfg.KK != "skc" && cfg.KK != "vk" && !cfg.Reg && r.Intn(3) == 0
 	if inMem {
 		ops = []string{"newmem 0"}
 	}
@@ -80,7 +80,7 @@ func genMapCase(r *rand.Rand, cfg Cfg, nops int, usize int) Case {
 		case x < 82:
 			ops = append(ops, fmt.Sprintf("iter %d", s))
 		case x < 84:
-			ops = append(ops, fmt.Sprintf("iterstop %d %d", s, r.Intn(len(m)+2)))
+			ops = append(ops, fmt.Sprintf("%s %d %d", pick(r, []string{"iterstop", "iterdone"}), s, r.Intn(len(m)+2)))
 		case x < 87:
 			ops = append(ops, fmt.Sprintf("stat %d", s))
 		case x < 90:
@@ -174,7 +174,7 @@ func multiLevel(st CaseStats) bool { return st.MaxHeight >= 1 && st.HeightChange
 // famMap — C01: results, sizes, heights and full iterations of random histories, compared with
 // the Lean model op by op and with a Go map + sort oracle.
 func famMap(f *FamCtx) {
-	f.Report.Rule = "random histories (insert/update/equal-upsert/delete hit+miss+wrong value/get/get with a nil value pointer/iter/iter with a callback that fails after j entries/stat/clone/persist/reload; one case in three at branch factor 16 on a tree made by NewInMemory()) over key universes of 3..200 keys, all key kinds, value kinds, bf in {2,3,4,16}, both node formats, cache none/big/tiny; thorough tier adds EVERY history of length 4 over a four-key universe (insert with two values / delete) for six layer assignments at bf 2 and 3, each with iteration, persist, reload; distinct = distinct (cfg, op list); non-trivial = reached height >= 1 and changed height at least once"
+	f.Report.Rule = "random histories (insert/update/equal-upsert/delete hit+miss+wrong value/get/get with a nil value pointer/iter/iter with a callback that fails, or signals done, after j entries/stat/clone/persist/reload; one case in three at branch factor 16 on a tree made by NewInMemory()) over key universes of 3..200 keys, all key kinds, value kinds, bf in {2,3,4,16}, both node formats, cache none/big/tiny; thorough tier adds EVERY history of length 4 over a four-key universe (insert with two values / delete) for six layer assignments at bf 2 and 3, each with iteration, persist, reload; distinct = distinct (cfg, op list); non-trivial = reached height >= 1 and changed height at least once"
 	n := f.N(150, 6000)
 	f.Gen = func() Case {
 		cfg := RandCfg(f.Rand)
